@@ -293,16 +293,22 @@ def Outcome.isAborted : Outcome → Bool
 
 structure SubStore where
   handler : Option Cx    -- context the `EVT_C_STORE` handler sees (`none`: handler not called)
-  rspCtx : Nat           -- context id of the C-STORE response
+  rspCtx : Option Nat    -- context id of the C-STORE response (`none`: no response is sent)
   refused : Bool         -- response status 0x0122 (SOP class not supported)
-  aborted : Bool         -- the path never aborts
+  aborted : Bool         -- the association is aborted instead of answering
   deriving DecidableEq, Repr
 
-/-- `_get_valid_context(req.AffectedSOPClassUID, '', 'scp', context_id=req._context_id)`;
+/-- `_c_store_scp(req)`.  `guard` (regenerated from association.py, `Gen.Glue.subStoreRejectsUnaccepted`): the
+request's context id is first tested against the accepted contexts - `if req._context_id not in
+self._accepted_cx: self.abort(); return` - as `_serve_request` does for every other request.  Then
+`_get_valid_context(req.AffectedSOPClassUID, '', 'scp', context_id=req._context_id)`;
 `except ValueError: rsp.Status = 0x0122; self.dimse.send_msg(rsp, 1)` -/
-def cStoreScp (acc : List Cx) (reqCtx : Nat) (ab : Nat) : SubStore :=
-  match getValidContext acc ab none (some .scp) (some reqCtx) true with
-  | none => { handler := none, rspCtx := 1, refused := true, aborted := false }
-  | some c => { handler := some c, rspCtx := c.id, refused := false, aborted := false }
+def cStoreScp (guard : Bool) (acc : List Cx) (reqCtx : Nat) (ab : Nat) : SubStore :=
+  if guard && !(ids acc).contains reqCtx then
+    { handler := none, rspCtx := none, refused := false, aborted := true }
+  else
+    match getValidContext acc ab none (some .scp) (some reqCtx) true with
+    | none => { handler := none, rspCtx := some 1, refused := true, aborted := false }
+    | some c => { handler := some c, rspCtx := some c.id, refused := false, aborted := false }
 
 end PynetVerif.Ctx
